@@ -10,8 +10,9 @@ NodeChoices == {[kind |-> kd, items |-> [i \in 1..Len(rs) |-> Item(IF kd = "dict
                    kd \in KINDS, rs \in SeqsOf(RefChoices, MaxKids)}
 Init == /\ h \in [1..N -> NodeChoices]
         /\ WellFormed(h)
-        /\ prog \in 0..7
-        /\ (prog = 7 => IsTree(h))
+        /\ prog \in 0..9
+        /\ (prog \in {7, 8} => IsTree(h))
+        /\ (prog = 8 => \A p \in DOMAIN h : 1 \notin Kids(h, p))       \* no way back to the root: the descent ends
 Next == UNCHANGED vars
 Spec == Init /\ [][Next]_vars
 R == Rebuild(prog, h)
